@@ -147,60 +147,102 @@ fn check_query(query: &Value, st: &mut Stats, nontrivial: bool) {
     }
 }
 
-pub fn run(tier: Tier) -> i32 {
-    let info = RunInfo::new("C17", tier);
-    let mut st = Stats::new();
-    let max_fields = 3usize;
-    let sizes: Vec<usize> = tier.pick(vec![1, 2, 3], vec![1, 2, 3, 4]);
+const KINDS: usize = 5;
+const NAMES: [&str; 3] = ["alpha", "beta", "gamma"];
+
+fn sizes(tier: Tier) -> Vec<usize> {
+    tier.pick(vec![1, 2, 3], vec![1, 2, 3, 4])
+}
+
+/// the cases: (number of grid fields, code of their sizes and element kinds)
+fn cases(tier: Tier) -> Vec<(usize, usize)> {
+    let ns = sizes(tier).len();
+    let mut out = vec![];
+    for m in 1..=3usize {
+        for code in 0..ns.pow(m as u32) * KINDS.pow(m as u32) {
+            out.push((m, code));
+        }
+    }
+    out
+}
+
+/// one case: every key order of the grid section x extra fields x position of the section
+fn check_case(tier: Tier, m: usize, code: usize, st: &mut Stats) {
+    let sizes = sizes(tier);
     let extras_sets: Vec<Map<String, Value>> = vec![
         Map::new(),
         [("origin_vertex".to_string(), json!(0)), ("tag".to_string(), json!({"keep": ["me", 1]})), ("extra2".to_string(), json!([2]))].into_iter().collect(),
     ];
-    const KINDS: usize = 5;
-    let names = ["alpha", "beta", "gamma"];
-    for m in 1..=max_fields {
-        // sizes^m x kinds^m
-        let combos = sizes.len().pow(m as u32) * KINDS.pow(m as u32);
-        for code in 0..combos {
-            let mut c = code;
-            let mut fs = vec![];
-            for f in 0..m {
-                let size = sizes[c % sizes.len()];
-                c /= sizes.len();
-                let kind = c % KINDS;
-                c /= KINDS;
-                fs.push((names[f].to_string(), field_values(f, size, kind)));
-            }
-            for perm in permutations(m) {
-                for extras in extras_sets.iter() {
-                    for grid_first in [true, false] {
-                        let mut gs = Map::new();
-                        for p in perm.iter() {
-                            gs.insert(fs[*p].0.clone(), Value::Array(fs[*p].1.clone()));
-                        }
-                        let mut q = Map::new();
-                        if grid_first {
-                            q.insert("grid_search".to_string(), Value::Object(gs.clone()));
-                        }
-                        for (k, v) in extras.iter() {
-                            q.insert(k.clone(), v.clone());
-                        }
-                        if !grid_first {
-                            q.insert("grid_search".to_string(), Value::Object(gs.clone()));
-                        }
-                        let q = Value::Object(q);
-                        let nontrivial = fs.iter().map(|f| f.1.len()).product::<usize>() > 1;
-                        check_query(&q, &mut st, nontrivial);
-                        if code == 21 && perm == vec![0usize; 0] {
-                            st.sample(1, || q.clone());
-                        }
-                        if m == 2 && code == 37 && grid_first && extras.len() == 2 && perm[0] == 1 {
-                            st.sample(3, || q.clone());
-                        }
-                    }
+    let mut c = code;
+    let mut fs = vec![];
+    for f in 0..m {
+        let size = sizes[c % sizes.len()];
+        c /= sizes.len();
+        let kind = c % KINDS;
+        c /= KINDS;
+        fs.push((NAMES[f].to_string(), field_values(f, size, kind)));
+    }
+    for perm in permutations(m) {
+        for extras in extras_sets.iter() {
+            for grid_first in [true, false] {
+                let mut gs = Map::new();
+                for p in perm.iter() {
+                    gs.insert(fs[*p].0.clone(), Value::Array(fs[*p].1.clone()));
+                }
+                let mut q = Map::new();
+                if grid_first {
+                    q.insert("grid_search".to_string(), Value::Object(gs.clone()));
+                }
+                for (k, v) in extras.iter() {
+                    q.insert(k.clone(), v.clone());
+                }
+                if !grid_first {
+                    q.insert("grid_search".to_string(), Value::Object(gs.clone()));
+                }
+                let q = Value::Object(q);
+                let nontrivial = fs.iter().map(|f| f.1.len()).product::<usize>() > 1;
+                check_query(&q, st, nontrivial);
+                if m == 2 && code == 37 && grid_first && extras.len() == 3 && perm[0] == 1 {
+                    st.sample(3, || q.clone());
                 }
             }
         }
+    }
+}
+
+pub fn worker(args: &[String]) -> i32 {
+    let tier = if args.first().map(|s| s.as_str()) == Some("thorough") { Tier::Thorough } else { Tier::Quick };
+    let cs = cases(tier);
+    crate::engine::sandbox::worker_loop(|i, st| {
+        let (m, code) = cs[i as usize];
+        check_case(tier, m, code, st);
+    })
+}
+
+pub fn run(tier: Tier) -> i32 {
+    let info = RunInfo::new("C17", tier);
+    let max_fields = 3usize;
+    let sizes = sizes(tier);
+    // the expansions run in worker processes: one that does not come back (or allocates without bound) is a verdict about
+    // that grid section, not the end of the check
+    let cs = cases(tier);
+    let cfg = crate::engine::sandbox::SandboxCfg {
+        worker_args: vec!["--worker".into(), "C17".into(), tier.as_str().into()],
+        n_workers: 16,
+        case_timeout: std::time::Duration::from_secs(10),
+        block: 32,
+        budget: std::time::Duration::from_secs(tier.pick(600, 7200)),
+    };
+    let (mut st, fates) = match crate::engine::sandbox::run_cases(&cfg, cs.len() as u64) {
+        Ok(x) => x,
+        Err(e) => {
+            println!("MACHINERY-ERROR sandbox: {}", e);
+            return 2;
+        }
+    };
+    for (i, fate) in fates.iter() {
+        let (m, code) = cs[*i as usize];
+        st.violation("grid_search.expansion", "returns_in_bounded_time", (m * 100000 + code) as u64, || format!("grid section with {} fields (code {}): {:?}", m, code, fate), || json!({"fields": m, "code": code, "tier": tier.as_str()}));
     }
     // pass-through: queries without a grid section are unchanged
     for q in [json!({}), json!({"origin_vertex": 0, "destination_vertex": 3}), json!({"a": [1, 2, 3], "b": {"c": []}})] {
@@ -212,12 +254,39 @@ pub fn run(tier: Tier) -> i32 {
         st,
         "state = one query object: 1-3 grid fields x sizes x element kinds {scalar, object with 1 key, object with 2 keys, mixed, object with a key that is also a field of the original query} x every key order of the grid section x {no, three} extra fields x grid section first/last; transition = one expansion through GridSearchPlugin::process or apply_input_plugins (flattening); oracle = reference Cartesian product compared as canonical multiset; non-trivial = product size > 1",
         true,
-        json!({"max_grid_fields": max_fields, "sizes": sizes, "element_kinds": 5}),
+        json!({"max_grid_fields": max_fields, "sizes": sizes, "element_kinds": KINDS, "cases_in_worker_processes": cs.len()}),
         vec!["object-valued choices of different grid fields use disjoint keys (two grid fields offering the same key cannot yield one distinct query per combination under any order, so the statement does not define that case); an option whose key is also a field of the original query must replace it - otherwise different options yield the same query twice".into()],
     )
 }
 
 pub fn replay(case: &Value) -> i32 {
+    if case.get("fields").is_some() {
+        // a case that did not come back: run it again under a deadline (the runaway thread ends with the process)
+        let m = case["fields"].as_u64().unwrap_or(1) as usize;
+        let code = case["code"].as_u64().unwrap_or(0) as usize;
+        let tier = if case["tier"].as_str() == Some("thorough") { Tier::Thorough } else { Tier::Quick };
+        return match crate::engine::with_deadline(10, move || {
+            let mut st = Stats::new();
+            check_case(tier, m, code, &mut st);
+            st
+        }) {
+            Some(st) => {
+                for (k, g) in st.violations.iter() {
+                    println!("REPLAY-VIOLATION {} {}", k, g.detail);
+                }
+                println!("replay: {} violated clauses over {} expansions", st.violations.len(), st.evaluations);
+                if st.violations.is_empty() {
+                    0
+                } else {
+                    1
+                }
+            }
+            None => {
+                println!("REPLAY-VIOLATION grid_search.expansion/returns_in_bounded_time no answer after 10 s");
+                std::process::exit(1);
+            }
+        };
+    }
     let q = case["query"].clone();
     let mut st = Stats::new();
     check_query(&q, &mut st, true);
